@@ -1,26 +1,67 @@
 """C04 -- extraction never crashes on a valid graph and a valid configuration.
 
-Oracle: no exception out of shex_graph (ShExC and SHACL) / profile_graph."""
+Oracle: no exception out of shex_graph (ShExC and SHACL) / profile_graph.
+
+SHACL runs are also corresponded with the SHACL document model: class-based runs with
+Model.ShaclDoc.shacl_output after Model.Run.run_shapes (entry shacl_doc), shape-map runs with
+Model.RunMapShacl.run_shacl_map (entry shacl_doc_map) -- the real Turtle is parsed by rdflib and compared
+with the model's abstract graph up to blank-node renaming (vp.shacldoc), exceptions by class.
+
+Root causes of the known findings are computed from the data, not from the exception:
+  rc_shacl_shape_map (C04-F2)  SHACL output of a shape-map extraction, while ShaclSerializer._add_target_class hands
+                               the class key to URIRef as it is (the label keeps its corners).  Once the method
+                               removes the corners (the code shape is read at run time) the tag excuses nothing.
+  rc_shacl_choice    (C04-F3)  SHACL output with disable_or_statements=False when the shapes of that configuration hold
+                               a disjunction: the ShExC text of the same run (same case, same configuration) has an
+                               ' OR ' constraint.  Without a disjunction the SHACL run must succeed.
+"""
+import inspect
 import random
 
-from vp import pipeprops, pipe, pipemap
+from vp import pipeprops, pipe, pipemap, shacldoc
 
 pipemap.install()      # shape-map runs (cfg["smap"]) go through Model.RunMap / Shaper(shape_map_raw=...)
 
 _impl_other = pipe.impl_other
+_LAST = {}             # observation of the external code of the last shape-map SHACL run (same process, same run)
 
 
 def _impl_other_map(ts, cfg, kind, timeout=10.0):
-    """SHACL output of a shape-map run (implementation only)"""
+    """SHACL output of a shape-map run"""
     if kind == "shacl" and pipemap.is_map(cfg):
         from shexer.consts import SHACL_TURTLE
-        r = pipemap.impl_shexc_map(ts, cfg, timeout=timeout, output_format=SHACL_TURTLE)
+        r, obs = pipemap.impl_shexc_map(ts, cfg, timeout=timeout, output_format=SHACL_TURTLE, want_obs=True)
+        _LAST["obs"] = obs
+        _LAST["key"] = id(cfg)
         return r[:3] if r[0] == "err" else r[:2]
     return _impl_other(ts, cfg, kind, timeout)
 
 
 pipe.impl_other = _impl_other_map
 T = pipe.RDF_TYPE
+
+_STRIPS = None
+
+
+def target_strips_corners():
+    """the shape of the code under test: does ShaclSerializer._add_target_class remove the corners of class_uri?"""
+    global _STRIPS
+    if _STRIPS is None:
+        from shexer.io.shacl.formater.shacl_serializer import ShaclSerializer
+        _STRIPS = "remove_corners" in inspect.getsource(ShaclSerializer._add_target_class)
+    return _STRIPS
+
+
+def model_doc_map(table):
+    """entry shacl_doc_map -> ('ok', flags, rows) | ('err', exception) | ('runerr', exception)"""
+    out = shacldoc._mb().call("shacl_doc_map", table)
+    h = out[0]
+    if h[0] == "ok":
+        return ("ok", {"S1": h[1] == "1", "S2": h[2] == "1", "refs_closed": h[3] == "1", "labels_distinct": h[4] == "1"},
+                out[1:])
+    if h[0] == "runerr":
+        return ("runerr", h[2] if len(h) > 2 else h[1])
+    return (h[0], h[1])
 
 
 def adversarial(r):
@@ -46,18 +87,27 @@ def adversarial(r):
     return ts
 
 
+def _same_cfg(a, b):
+    return all(a.get(k) == b.get(k) for k in set(a) | set(b) if not k.startswith("_"))
+
+
 class Spec(pipeprops.PropSpec):
     pid = "C04"
-    theorems = "C04_shex_total (Props/C04.v)"
+    theorems = ("C04_shex_total, C04_map_shacl_total, C04_map_shacl_fails_old / C04_map_shacl_refuted, "
+                "C04_shacl_choice_never / C04_shacl_choice_refuted (Props/C04.v)")
     projection = staticmethod(pipeprops.proj_outcome)
     projection_name = "outcome of shex_graph (ShExC): result or exception class"
     rule = ("C01's graphs plus adversarial mixes (a property whose values are IRIs and blank nodes with/without "
             "classes; thresholds between the reference and the plain kinds; nodes without outgoing triples; "
             "one-instance classes; language-tagged literals) x random accepted configurations (all 2^6 switch "
-            "assignments, OR on/off, target modes, caps) x {shex_graph ShExC to string and file, shex_graph SHACL, profile_graph to string and file}; "
+            "assignments, OR on/off, target modes, caps) x {shex_graph ShExC to string and file, shex_graph SHACL "
+            "(with the case's own disable_or_statements / allow_redundant_or for two cases in three, the default for "
+            "the third), profile_graph to string and file}; "
             "non-trivial = some class with >= 2 instances and some non-typing triple; plus the shape-map stream "
             "(vp.pipemap: node / FOCUS / SPARQL selectors, labels full and prefixed, nodes without triples, "
-            "reference chains, all_classes_mode + shape map, remove_empty on/off, OR on/off, model-corresponded)")
+            "reference chains, all_classes_mode + shape map, remove_empty on/off, OR on/off, model-corresponded), "
+            "every third case of it also as SHACL; every SHACL run is corresponded with the SHACL document model "
+            "(graph isomorphism through rdflib / exception class)")
 
     def gen_cases(self, tier, rnd):
         n = 40000 if tier == "thorough" else 2000
@@ -71,8 +121,9 @@ class Spec(pipeprops.PropSpec):
                 cfg["allow_redundant_or"] = r.random() < 0.5
             runs = [(ts, cfg)]
             shacl_cfg = dict(cfg)
-            shacl_cfg["disable_or_statements"] = True      # SHACL is specified for the default only
-            shacl_cfg["allow_redundant_or"] = False
+            if i % 3 == 2:                                  # the default for a third; the case's own otherwise
+                shacl_cfg["disable_or_statements"] = True
+                shacl_cfg["allow_redundant_or"] = False
             runs.append((ts, shacl_cfg, "shacl"))
             if i % 4 == 0:
                 runs.append((ts, cfg, "profile"))
@@ -86,27 +137,122 @@ class Spec(pipeprops.PropSpec):
             if j % 3 == 0:                   # SHACL output of shape-map extractions
                 ts, cfg = c["runs"][0][0], c["runs"][0][1]
                 sc = dict(cfg)
-                sc["disable_or_statements"] = True
-                sc["allow_redundant_or"] = False
+                if j % 2 == 0:
+                    sc["disable_or_statements"] = True
+                    sc["allow_redundant_or"] = False
                 c["runs"].append((ts, sc, "shacl"))
         cases += mcases
+        cases += _decor_stream(tier, rnd)       # examples_mode / detect_minimal_iri (block below the class)
         return cases
+
+    def model_other(self, ts, cfg, kind, impl):
+        """SHACL runs against the SHACL document model (class-based: entry shacl_doc; shape-map: shacl_doc_map)"""
+        if kind != "shacl":
+            return ("n/a", ""), True
+        if pipemap.is_map(cfg):
+            obs = _LAST.get("obs")
+            if obs is None or _LAST.get("key") != id(cfg):
+                _, obs = pipemap.impl_shexc_map(ts, cfg, want_obs=True)
+            m = model_doc_map(pipemap.model_table_map(ts, cfg, obs))
+            r = shacldoc.compare_outcomes(m, impl)
+            tag = "shacl-map-model"
+        else:
+            r = shacldoc.compare_run(ts, cfg, impl)
+            tag = "shacl-model"
+        if r["agree"] and r["kind"].startswith("isomorphic"):
+            fl = r["flags"]
+            if not fl["S2"] or (fl["refs_closed"] and not fl["S1"]):
+                return (tag, "model graph violates its own theorem: %r" % fl), False
+        return (tag, r["kind"] if r["agree"] else "%s: %s" % (r["kind"], r["detail"])), r["agree"]
+
+    def extra_vm_cases(self, cases, mb, rnd, tier):
+        out = []
+        want = 8 if tier == "thorough" else 3
+        nm = nc = 0
+        for c in cases:
+            for rn in c["runs"]:
+                if len(rn) > 2 and rn[2] == "shacl":
+                    if pipemap.is_map(rn[1]) and nm < want:
+                        _, obs = pipemap.impl_shexc_map(rn[0], rn[1], want_obs=True)
+                        t = pipemap.model_table_map(rn[0], rn[1], obs)
+                        out.append(("shacl_doc_map", t, mb.call("shacl_doc_map", t)))
+                        nm += 1
+                    elif not pipemap.is_map(rn[1]) and nc < want:
+                        t = pipe.model_table(rn[0], rn[1])
+                        out.append(("shacl_doc", t, mb.call("shacl_doc", t)))
+                        nc += 1
+        return out
 
     def oracle(self, case, impl):
         fails = []
-        for rn, res in zip(case["runs"], impl):
+        runs = case["runs"]
+        for k, (rn, res) in enumerate(zip(runs, impl)):
             kind = rn[2] if len(rn) > 2 else "shexc"
             if res[0] != "ok":
                 rc = None
                 if kind == "shacl" and res[1] == "ValueError":
                     rc = "rc_shacl_value_error"
-                if kind == "shacl" and pipemap.is_map(rn[1]) and res[1] == "Exception":
+                if kind == "shacl" and not rn[1]["disable_or_statements"]:
+                    # the shapes of this configuration hold a disjunction: read off the ShExC text of the same
+                    # case and configuration (the data), whatever the exception
+                    for rn2, res2 in zip(runs, impl):
+                        if len(rn2) == 2 and rn2[0] == rn[0] and _same_cfg(rn2[1], rn[1]) and res2[0] == "ok" \
+                                and " OR " in res2[1]:
+                            rc = "rc_shacl_choice"
+                if kind == "shacl" and pipemap.is_map(rn[1]) and not target_strips_corners() and rc is None \
+                        and res[1] == "Exception":
                     rc = "rc_shacl_shape_map"
                 if kind == "shexc" and res[1] == "TypeError" and not rn[1]["disable_or_statements"] and rn[1]["remove_empty_shapes"]:
                     rc = "rc_choice_prune"
                 fails.append((rc, "%s raises %s at %s" % (kind, res[1], res[2] if len(res) > 2 else "")))
         return fails, len(impl)
 
+
+# --------------------------------------------------------------------------
+# examples_mode / detect_minimal_iri: the crash oracle over the decorated runs (run kind "decor" = vp.pipedecor's
+# runner: Shaper(..., detect_minimal_iri, examples_mode).shex_graph to a string; model: Model/RunDecor.v).  A crash
+# is a violation unless its data-computed root cause (pipedecor.root_cause) is the tag of a listed known finding;
+# the tag is never produced once ShexSerializer._serialize_example carries the `candidate is None` guard.
+# Self-contained: wraps Spec.oracle / Spec.model_other / pipe.impl_other as they are at this point of the file.
+# --------------------------------------------------------------------------
+from vp import pipedecor
+
+pipedecor.install()
+
+
+def _decor_stream(tier, rnd):
+    return pipedecor.c04_cases(tier, rnd, [adversarial, lambda r: pipe.gen_graph(r, general=True),
+                                           lambda r: pipe.gen_graph(r, general=False)])
+
+
+def _wrap_for_decor():
+    oracle0 = Spec.oracle
+    hook0 = getattr(Spec, "model_other", None)
+
+    def oracle(self, case, impl):
+        rest = [(rn, res) for rn, res in zip(case["runs"], impl) if not (len(rn) > 2 and rn[2] == pipedecor.KIND)]
+        fails, _ = oracle0(self, {"runs": [x[0] for x in rest], "meta": case.get("meta", {})}, [x[1] for x in rest])
+        for rn, res in zip(case["runs"], impl):
+            if len(rn) > 2 and rn[2] == pipedecor.KIND and res[0] != "ok":
+                fails.append((pipedecor.root_cause(rn[0], rn[1], res),
+                              "shexc with detect_minimal_iri=%r, examples_mode=%r raises %s at %s" % (
+                                  bool(rn[1].get("detect_minimal_iri")), rn[1].get("examples_mode"), res[1],
+                                  res[2] if len(res) > 2 else "")))
+        return fails, len(impl)
+
+    def model_other(self, ts, cfg, kind, impl):
+        prev = (lambda *a: hook0(self, *a)) if hook0 is not None else None
+        return pipedecor.model_other(ts, cfg, kind, impl, prev)
+
+    Spec.oracle = oracle
+    Spec.model_other = model_other
+    Spec.rule += ("; plus the decorated stream (vp.pipedecor.c04_cases: the same graphs x random accepted "
+                  "configurations x examples_mode {None, shape, cons, all} x detect_minimal_iri, at least one of the "
+                  "two set; target classes without instances with empty shapes kept; model-corresponded with "
+                  "Model/RunDecor.v)")
+
+
+_wrap_for_decor()
 
 def _profile_text_correspondence():
     """profile_graph (Props/C04.v: C04_profile_json_total_iff, C04_profile_json_errors): the profile runs of the
